@@ -94,6 +94,10 @@ def _cases(tier, rng):
         # history: an earlier map into the same folder, given other input values, died before it had written
         # run_info.json (which is written last); the run under test then uses the folder with cleanup=False
         yield {"prog": prog, "storage": STORAGES[q % 3], "scoped": False, "after_died_run": True}
+        # history: an earlier *partial* run (one index of an axis fixed) persisted its part; the run under test completes
+        # it with cleanup=False, computing the rest in worker processes
+        yield {"prog": prog, "storage": ("shared_memory_dict", "dict", "file_array")[q % 3], "scoped": False,
+               "after_partial_run": True}
         # an input whose class is defined in __main__ of the process that runs the map (a script, a notebook)
         scalars = [n for n, d in prog["inputs"].items() if not d.get("omit")]
         if scalars:
@@ -157,10 +161,27 @@ def _check(case):
         if case.get("after_died_run"):
             _died_run(p, real_in, folder, stor, mk)
             extra = {"cleanup": False}
+        pool = None
+        if case.get("after_partial_run"):
+            ax = next((a for f in prog["funcs"] if f.get("spec") for n, axes in f["spec"]["inputs"] if n in prog["inputs"]
+                       for a in axes if a is not None), None)
+            try:
+                if ax is None:
+                    raise ValueError("no axis")
+                p.map(real_in, run_folder=folder, parallel=False, storage=stor, fixed_indices={ax: 0}, **mk)
+                extra = {"cleanup": False}
+            except Exception:  # noqa: BLE001  (the axis is reduced somewhere / not fixable: a plain run then)
+                extra = {}
+            from concurrent.futures import ProcessPoolExecutor
+            pool = ProcessPoolExecutor(2)
+            extra.update(parallel=True, executor=pool)
         try:
-            res = p.map(real_in, run_folder=folder, parallel=False, storage=stor, **mk, **extra)
+            res = p.map(real_in, run_folder=folder, **{"parallel": False, "storage": stor, **mk, **extra})
         except Exception as e:  # noqa: BLE001
             return [f"map-raised-{type(e).__name__}: {str(e)[:150]}"]
+        finally:
+            if pool is not None:
+                pool.shutdown(wait=True)
         produced = {o: progs.to_nested(res[o].output) for o in outs}
         for o in outs:
             if produced[o] != want[o]:
@@ -171,12 +192,14 @@ def _check(case):
         for rep in (1, 2):
             for o in outs:
                 try:
-                    got = progs.to_nested(load_outputs(o, run_folder=folder))
+                    raw = load_outputs(o, run_folder=folder)
+                    got = progs.to_nested(raw)
                 except Exception as e:  # noqa: BLE001
                     bad.append(f"same-process-load{rep}:{o}: raised {type(e).__name__}: {str(e)[:100]}")
                     continue
                 if got != produced[o]:
                     bad.append(f"same-process-load{rep}:{o}: got {str(got)[:120]} produced {str(produced[o])[:120]}")
+                _spoil(raw)  # what a caller does to the object it was handed must not change what the folder yields next
             ri = RunInfo.load(folder)
             inf = _info(ri)
             if info0 is None:
@@ -230,6 +253,19 @@ def _check(case):
         shutil.rmtree(folder, ignore_errors=True)
 
 
+def _spoil(raw):
+    import numpy as np
+    try:
+        if isinstance(raw, list):
+            raw.append("spoiled-by-the-caller")
+        elif isinstance(raw, np.ndarray) and raw.size and raw.flags.writeable and raw.dtype == object:
+            raw.flat[0] = "spoiled-by-the-caller"
+        elif isinstance(raw, dict):
+            raw["spoiled-by-the-caller"] = 1
+    except Exception:  # noqa: BLE001
+        pass
+
+
 class _Died(BaseException):
     pass
 
@@ -268,7 +304,7 @@ def _died_run(p, real_in, folder, stor, mk):
 
 def _describe(case):
     return {"program": progs.describe(case["prog"]), "storage": case["storage"], "scoped": case.get("scoped", False),
-            "after_died_run": bool(case.get("after_died_run"))}
+            "after_died_run": bool(case.get("after_died_run")), "after_partial_run": bool(case.get("after_partial_run"))}
 
 
 def bounded_checks():
